@@ -34,7 +34,8 @@ RULE = ('generated specs of every specgen preset, the grid family (every type sh
         'and leaf, union, local / foreign alias incl. alias of alias, nullable, list, map x every position: field, '
         'defaulted field, variant, alias target, route argument / result / error, parent; same type and route names in '
         'two namespaces, an alias-only namespace) and the attribute family (route schemas of every JSON-printable '
-        'attribute type x adversarial values x attribute order), plus hand seeds under corpus/C16, x the option sets of the four '
+        'attribute type x adversarial values x attribute order), the comment family (every doc site x references of every tag '
+        'x terminator characters around them; no doc text outside comments), plus hand seeds under corpus/C16, x the option sets of the four '
         'backends (tsd_types: single file / file per namespace / --export-namespaces / --exclude_error_types; '
         'tsd_client: --import-namespaces, --wrap-response-in, --wrap-error-in, -a; js_client: --request-options, '
         'wrap options, -a, -c). Per spec: random IR types through the four type mappers; every output scanned '
@@ -1780,6 +1781,11 @@ def settle(ck, pd, reply, node_recs, check_syntax):
                                                                       payload['site']), sig, dict(case, crash=payload))
             continue
         files = payload
+        for fn, marks in doc_text_leaks(files):
+            ck.stat('comments.leaks')
+            judge.P('%s[%s] %s: text of a doc string is outside its comment (read as code): %s -- %s' % (
+                backend, label, fn, ', '.join(marks[:4]), describe_marker(marks[0])),
+                {'kind': 'doc_text_outside_comment', 'backend': backend}, file=fn, markers=marks[:8])
         def closed_early(suite):
             # a `*/` of the spec ended a generated comment early in this output (the oracle has just said so): the text
             # layer, which is not modelled, decides what a scanner sees, so only the oracle judges this run
@@ -2124,6 +2130,158 @@ def suite_attrs(ck):
     if ck.stats.get('spec.compile_failed', 0) != before:
         ck.note('a spec of the attribute family is refused by the frontend')
         ck.stat('attrs.refused', ck.stats.get('spec.compile_failed', 0) - before)
+
+
+
+# ----------------------------------------------------------------------------------------------
+# comment family: what the generators copy into a block comment, AFTER all of their own rewriting. Every doc site of a
+# spec (namespace, alias, struct, field, union, variant, subtype root / leaf, route) carries "units" L + reference + R:
+# a doc reference of every tag (:link: :route: :type: :field: :val:) whose expansion begins or ends with a character
+# of the comment terminator, directly between prose that supplies the other one (`*` + an expansion that begins with
+# `/`, an expansion that ends in `*` + `/`), next to terminators that are there from the start. A marker word follows
+# each unit; the oracle (`doc_text_leaks`) reads every output file as JavaScript / TypeScript, removes comments and
+# string literals and asks that no marker is left in the code: the text of a doc string stays inside its comment.
+# ----------------------------------------------------------------------------------------------
+
+C_REFS = (
+    ':link:`/developers/reference https://www.example.com/developers/reference`',     # expansion begins with `/` (JS)
+    ':link:`/ https://e.x`',
+    ':link:`docs https://e.x/a/*`',                                                   # expansion ends with `*`
+    ':link:`*/docs*/ https://e.x/*/x`',
+    ':link:`a* /b`',                                                                  # title `a*`, uri `/b`
+    ':route:`r`', ':route:`r:2`',
+    ':type:`S`', ':type:`nsb.T`',
+    ':field:`S.x`', ':field:`nsb.T.x`',
+    ':val:`true`', ':val:`-1.5`', ':val:`"/"`', ':val:`"*/"`', ':val:`"*"`',
+)
+C_EDGE = (('*', ''), ('', '/'), ('*', '/'))                     # the edges that can only form `*/` together with an expansion
+C_LEFT = ('', '*', '/', '*/', '**', '/*', ' *', '\\', '*\\', '(*', '_*')
+C_RIGHT = ('', '/', '*', '*/', '//', '/*', '/ ', '\\/', '*\\/', '/)', '/.')
+C_PLAIN = ('*/', '* /', '*\\/', '**/', '*//', '/*/', '*/*/', '/* x */', '\\*/', '*\n/', '* */', '*/}', '*/ function f() {')
+C_UNITS = tuple(l + ref + r for ref in C_REFS for l, r in C_EDGE)
+C_SITES = ('namespace nsa', 'alias Al', 'struct S', 'field S.x', 'field S.y', 'union U', 'variant U.a', 'variant U.b',
+           'variant U.c', 'struct Root', 'field Root.r', 'struct Leaf', 'field Leaf.l', 'route r', 'route r:2',
+           'namespace nsb', 'struct nsb.T', 'field nsb.T.x')
+C_LOCAL = 15                                                     # sites below this index lie in namespace nsa
+C_MARK = re.compile(r'zq(\d+)u(\d+)x')
+C_PER_DOC = 6
+
+
+def _c_doc(site, units):
+    """the doc string of one site: [(unit number or -1, unit text)] -> spec literal"""
+    words = ['Doc of site %d.' % site]
+    for k, (num, text) in enumerate(units):
+        words.append('see %s zq%du%dx' % (text, site, num if num >= 0 else 900 + k))
+    return specgen.lit(' '.join(words))
+
+
+def comment_spec(pick):
+    """files of one spec of the comment family; pick(site) -> [(unit number, unit text)]"""
+    d = [_c_doc(i, pick(i)) for i in range(len(C_SITES))]
+    nsb = ['namespace nsb', '    ' + d[15], '', 'struct T', '    ' + d[16], '    x String', '        ' + d[17], '']
+    nsa = ['namespace nsa', '    ' + d[0], '', 'import nsb', '',
+           'alias Al = String', '    ' + d[1], '',
+           'struct S', '    ' + d[2], '    x String = "dflt"', '        ' + d[3], '    y Int32?', '        ' + d[4], '',
+           'union U', '    ' + d[5], '    a', '        ' + d[6], '    b S', '        ' + d[7],
+           '    c List(nsb.T)', '        ' + d[8], '',
+           'struct Root', '    ' + d[9], '    union', '        leaf Leaf', '    r Al', '        ' + d[10], '',
+           'struct Leaf extends Root', '    ' + d[11], '    l String', '        ' + d[12], '',
+           'route r(S, U, Void)', '    ' + d[13], '',
+           'route r:2(Void, Root, nsb.T)', '    ' + d[14], '']
+    return [('nsb.stone', '\n'.join(nsb)), ('nsa.stone', '\n'.join(nsa))]
+
+
+def _c_foreign(text):
+    """namespace nsb does not import nsa: its docs only carry references that resolve there (None: leave the unit out)"""
+    if any(t in text for t in (':route:', ':type:`S`', ':field:`S.x`')):
+        return None
+    return text.replace('`nsb.T', '`T')
+
+
+def comment_specs(rng, nrandom):
+    specs = []
+    rounds = -(-len(C_UNITS) // C_PER_DOC)
+    for k in range(rounds):                                      # every edge unit at every site (rotation)
+        def pick(site, k=k):
+            got = []
+            for j in range(C_PER_DOC):
+                n = (C_PER_DOC * k + j + site) % len(C_UNITS)
+                text = C_UNITS[n] if site < C_LOCAL else _c_foreign(C_UNITS[n])
+                if text is not None:
+                    got.append((n, text))
+            return got
+        specs.append(('comments/edge%d' % k, comment_spec(pick)))
+    for i in range(nrandom):                                     # wider edges, terminators without a reference
+        def pick(site):
+            got = []
+            for _ in range(rng.randint(1, 4)):
+                if rng.random() < 0.25:
+                    got.append((-1, rng.choice(C_PLAIN)))
+                    continue
+                text = rng.choice(C_LEFT) + rng.choice(C_REFS) + rng.choice(C_RIGHT)
+                if rng.random() < 0.3:
+                    text += rng.choice(C_REFS) + rng.choice(C_RIGHT)     # two references back to back
+                text = text if site < C_LOCAL else _c_foreign(text)
+                if text is not None:
+                    got.append((-1, text))
+            return got
+        specs.append(('comments#%d' % i, comment_spec(pick)))
+    return specs
+
+
+def code_outside_comments(text):
+    """the text of a JavaScript / TypeScript file without its comments and string literals (own lexer)"""
+    out, i, n = [], 0, len(text)
+    while i < n:
+        c = text[i]
+        if text.startswith('/*', i):
+            j = text.find('*/', i + 2)
+            i = n if j < 0 else j + 2
+            out.append(' ')
+        elif text.startswith('//', i):
+            j = text.find('\n', i)
+            i = n if j < 0 else j
+        elif c in '"\'`':
+            j = i + 1
+            while j < n and text[j] != c and (c == '`' or text[j] != '\n'):
+                j += 2 if text[j] == '\\' else 1
+            i = j + 1
+            out.append(c + c)
+        else:
+            out.append(c)
+            i += 1
+    return ''.join(out)
+
+
+def doc_text_leaks(files):
+    """[(file, [marker])]: marker words of doc strings (comment family) found outside comments and strings"""
+    found = []
+    for fn in sorted(files):
+        if 'zq' not in files[fn]:
+            continue
+        ms = [m.group(0) for m in C_MARK.finditer(code_outside_comments(files[fn]))]
+        if ms:
+            found.append((fn, ms))
+    return found
+
+
+def describe_marker(mark):
+    m = C_MARK.match(mark)
+    site, unit = int(m.group(1)), int(m.group(2))
+    return 'doc of %s%s' % (C_SITES[site] if site < len(C_SITES) else 'site %d' % site,
+                            ' after `%s`' % C_UNITS[unit] if unit < len(C_UNITS) else '')
+
+
+def suite_comments(ck):
+    specs = comment_specs(ck.rng, ck.scale(10, 150))
+    ck.stat('comments.specs', len(specs))
+    ck.stat('comments.edge_units', len(C_UNITS))
+    before = ck.stats.get('spec.compile_failed', 0)
+    run_specs(ck, specs, full=True, syntax_every=1)
+    if ck.stats.get('spec.compile_failed', 0) != before:
+        # the family is written to be accepted: a refusal means the sites were not exercised
+        ck.failing_input('a spec of the comment family is refused by the frontend',
+                         {'kind': 'comment_family_refused'}, {'suite': 'comments'})
 
 
 PRESET_CYCLE = ('routes', 'default', 'small', 'rt', 'fe', 'py_safe', 'routes', 'default')
